@@ -164,9 +164,11 @@ def job_rw_sets(res, n=4, nb=2):
             for i in range(sz // 4):
                 v = z3.Real('%s_%d' % (k, i)); st.sym[a + 4 * i] = (4, 'f', v); S[a + 4 * i] = v
                 if k in ('filling', 'integral'): st.pc.append(v > 0)
+        npc = len(st.pc)
         outs = run_paths(ex, st, fn, [R['ps']] + args); account(res, ex, mod, outs)
         wr = set(); rd = set()
         for o in outs:
+            for c in o.pc[npc:]: rd |= {x.split('_')[0] for x in syms_of(c) if '_' in x and x.split('_')[0] in regs}      # what the call decides on is read as well (a result that is rounded differently depending on it, say)
             for k, (a, sz) in regs.items():
                 for i in range(sz // 4):
                     t = ex.dom.z(ex.load(o, a + 4 * i, F32))
